@@ -70,6 +70,7 @@ type rowStore struct {
 	inserts              chan *insert
 	forceFlushes         chan bool
 	forceFlushCompletes  chan bool
+	stopped              chan bool // closed once the insert-processing goroutine has ended
 	flushCount           int
 	iterationsInProgress map[string]int
 	mx                   sync.RWMutex
@@ -168,6 +169,7 @@ func (t *table) openRowStore(opts *rowStoreOptions) (*rowStore, common.OffsetsBy
 		inserts:              make(chan *insert),
 		forceFlushes:         make(chan bool),
 		forceFlushCompletes:  make(chan bool),
+		stopped:              make(chan bool),
 		iterationsInProgress: make(map[string]int),
 		fileStore: &fileStore{
 			t:        t,
@@ -232,7 +234,13 @@ func (rs *rowStore) memStoreSize() int {
 
 func (rs *rowStore) insert(insert *insert) {
 	verifCount("submitted", rs.t)
-	rs.inserts <- insert
+	select {
+	case rs.inserts <- insert:
+	case <-rs.stopped:
+		// the database is closing and nobody will take this insert any more
+		// (blocking here would keep Close waiting forever); its offset has not
+		// been recorded, so the entry is read again after the next start
+	}
 }
 
 func (rs *rowStore) forceFlush() {
@@ -309,6 +317,7 @@ func (rs *rowStore) processInserts(ms *memstore, stop <-chan interface{}) {
 			rs.t.log.Debug("Forcing flush due to database stopped")
 			flush(true)
 			rs.t.log.Debug("Done forcing flush due to database stopped")
+			close(rs.stopped)
 			return
 		case fields := <-rs.fieldUpdates:
 			rs.t.log.Debugf("Updating fields to %v", fields)
